@@ -1652,6 +1652,35 @@ def scen_C14(ctx):
         pair(ctx, 'bulk', i, lines, stats=g.stats)
     parallel(one, range(ctx.scale(70, 500)))
 
+    # the std function the *_string variants compose with: String::from_utf8_lossy (crate side) vs Utf8.lossy (model) vs Python's
+    # 'replace' decoder (used above to post-process the model's bytes), EXHAUSTIVELY on all byte strings of length <= 2 and on all
+    # 3- and 4-byte strings built from one representative per byte class, plus seeded random strings up to 12 bytes
+    import random, itertools
+    rng = random.Random('%s/C14lossy' % ctx.seed)
+    reps = [0x00, 0x41, 0x7f, 0x80, 0x8f, 0x90, 0x9f, 0xa0, 0xbf, 0xc0, 0xc1, 0xc2, 0xdf, 0xe0, 0xe1, 0xec, 0xed, 0xee, 0xef, 0xf0, 0xf1, 0xf3, 0xf4, 0xf5, 0xff]
+    strs = [b''] + [bytes([a]) for a in range(256)] + [bytes([a, b]) for a in range(256) for b in range(256)]
+    strs += [bytes(t) for t in itertools.product(reps, repeat=3)]
+    if not ctx.quick:
+        strs += [bytes(t) for t in itertools.product(reps, repeat=4)]
+    strs += [bytes(rng.choice(reps + [rng.randrange(256)]) for _ in range(rng.randrange(3, 13))) for _ in range(ctx.scale(3000, 100000))]
+    f = os.path.join(ctx.root, 'lossy.txt')
+    open(f, 'w').write(''.join((b.hex() or '-') + '\n' for b in strs))
+    ri = C.sh([C.HARNESS, 'lossy', f], timeout=1200)
+    rm = C.sh(['bash', '-c', 'ulimit -s unlimited 2>/dev/null; exec "$0" lossy "$1"', C.DRIVER, f], timeout=1200)
+    il, ml = ri.stdout.split('\n'), rm.stdout.split('\n')
+    ctx.evaluations += len(strs)
+    ctx.scen_counts['lossy_strings'] = len(strs)
+    for j, b in enumerate(strs):
+        py = b.decode('utf-8', errors='replace').encode('utf-8').hex() or '-'
+        a_ = il[j].split()[1] if j < len(il) and len(il[j].split()) == 2 else 'MISSING'
+        m_ = ml[j].split()[1] if j < len(ml) and len(ml[j].split()) == 2 else 'MISSING'
+        if a_ != m_ or a_ != py:
+            ctx.disagreements += 1
+            ctx.violation('lossy_%s' % (b.hex() or 'empty'), 'String::from_utf8_lossy(%s): crate side `%s`, model Utf8.lossy `%s`, Python decoder `%s`: the lossy decoding used to '
+                          'compare the *_string variants is not the one the crate performs (a correspondence of the test machinery, no failing input of the crate)'
+                          % (b.hex(), a_, m_, py), None, found=False)
+            break
+
 
 SCENARIOS['C14'] = scen_C14
 
